@@ -254,7 +254,8 @@ pub fn gen_world(rng: &mut Rng, prop: &str) -> WorldCfg {
         vamms.push(VammCfg {
             q,
             b,
-            funding_period: *rng.pick(&[1800u64, 3600, 3600, 86400]),
+            // (the funding profile also uses periods that are an odd number of seconds, down to one second)
+            funding_period: if prop == "C11" { *rng.pick(&[1800u64, 3600, 3600, 86400, 3601, 1801, 7, 1]) } else { *rng.pick(&[1800u64, 3600, 3600, 86400]) },
             toll,
             spread,
             fluct,
